@@ -257,6 +257,24 @@ pub fn run(rec: &mut Rec, rng: &mut Rng, thorough: bool) {
             rec.oracle_fail("C16", &format!("StatusCode #{} serializes to {}", i, hx(&raw[..])), &["rawtable".into()]);
         }
     }
+    // "serializes": on the wire, in the status line of a response, for every (version, status) pair — twice, so that
+    // a table filled lazily by the first uses is consulted again
+    for round in 0..2 {
+        for (vi, v) in versions.iter().enumerate() {
+            for (i, s) in statuses.iter().enumerate() {
+                let mut out = Vec::new();
+                let _ = micro_http::Response::new(*v, *s).write_all(&mut out);
+                let want = format!("HTTP/1.{} {} \r\n", vi, expect_codes[i]);
+                let spec = crate::conn::RespSpec { v11: vi == 1, code: expect_codes[i] as u16, ops: vec![] };
+                let op = format!("resp {}", spec.proto());
+                if !out.starts_with(want.as_bytes()) {
+                    rec.oracle_fail("C16", &format!("round {}: the status line of ({:?}, {:?}) is {:?}, expected {:?}", round, v, s, String::from_utf8_lossy(&out[..out.len().min(20)]), want), &[op.clone()]);
+                }
+                rec.nontrivial_op();
+                rec.op(&op, &hx(&out));
+            }
+        }
+    }
 
     // all strings of length <= n over the letters of the method tokens, case flips, SP, NUL, one non-ASCII byte
     let mut alpha: Vec<Vec<u8>> = vec![];
